@@ -65,3 +65,21 @@ Fixpoint elems {A} (toks : list (tok A)) : list A :=
   | E x :: r => x :: elems r
   | _ :: r => elems r
   end.
+
+(** Debug text: after the [m]-th element close the completed dimensions, comma, reopen them *)
+Definition dsep_spec {A} (ds : list N) (m : N) : list (dtok A) :=
+  repeat DClose (wraps ds m) ++ [DComma] ++ repeat DOpen (wraps ds m).
+Fixpoint dbg_from {A} (ds : list N) (k : N) (l : list A) : list (dtok A) :=
+  match l with
+  | [] => []
+  | x :: r => DE x :: match r with
+                      | [] => []
+                      | _ => dsep_spec ds (k + 1) ++ dbg_from ds (k + 1) r
+                      end
+  end.
+Definition debug_spec {A} (ds : list N) (l : list A) : list (dtok A) :=
+  repeat DOpen (length ds) ++ dbg_from ds 0 l ++ repeat DClose (length ds).
+
+(** a constructed tensor: positive extents and Π dims elements *)
+Definition wf {A} (t : tensor A) : Prop :=
+  positive (dims t) /\ N.of_nat (length (data t)) = product (dims t).
